@@ -7,6 +7,7 @@ from hypothesis import strategies as st
 import xtuml
 from . import gen_schema, popgen, build
 from .core import Violation, hyp_run, loop_run, Res, exc_bucket, TimeLimit
+from . import fuzz
 from .gen_schema import Schema, schema_statements, insert_statement
 from .c03_loadlinks import canon, rows_statements
 
@@ -22,6 +23,8 @@ RULE = ('inputs to ModelLoader.input followed by build_metamodel: (a) arbitrary 
         'inputs, every later rejection carries the diagnostic that fresh loader gives, and every later build equals (result or '
         'exception text) the build of that fresh loader; build returns or '
         'raises ParsingException / MetaException (sub)classes; every call returns within a 10 s alarm. '
+        '(f) an atheris / libFuzzer campaign (xtuml.load grammar actions, PLY driver and lexer callbacks instrumented; token-level mutator mixed with byte mutations; seeds: '
+        'small valid files and chunks of the shipped models, one thorough shard in four starts empty) whose inputs are split at U+001E into up to three inputs of one history, oracle inside the target. '
         'non-trivial = input that lexes completely and is rejected by the grammar, or is accepted with >= 1 statement '
         'and then built; histories with a rejected input between two accepted ones; distinct = by input text.')
 ASSUMPTIONS = [
@@ -353,6 +356,8 @@ def run(ctx):
     hyp_run(ctx, res, histories(), body, ctx.pick(300, 2000), label='histories')
     if ctx.shard == 0:
         loop_run(ctx, res, pump_cases(ctx), body)
+    # coverage-guided campaign: 1-3 inputs (separated by U+001E) fed to one loader with a build after each, same oracle
+    fuzz.fuzz_run(ctx, res, 'sql', ctx.pick(6000, 150000), 'sql', empty_corpus=(not ctx.quick and ctx.shard % 4 == 3))
     return res
 
 
